@@ -57,6 +57,16 @@ func genDefSchema(c *Ctx, depth int) map[string]any {
 			// an object-valued default that itself lacks nested defaults
 			s["default"] = map[string]any{"a": map[string]any{}}
 		}
+		if c.W(5) == 0 {
+			// dependent subschemas that declare defaults of their own, triggered by members that
+			// may themselves be filled in by a default. ApplyDefaults honours defaults on
+			// properties only: whatever it makes of these, applying twice changes nothing more.
+			deps := map[string]any{}
+			for _, k := range subset(c, []string{"a", "b", "c", "d"}, 1, 2) {
+				deps[k] = map[string]any{"properties": map[string]any{pick(c, []string{"a", "b", "c", "d"}): genDefSchema(c, 0)}}
+			}
+			s["dependentSchemas"] = deps
+		}
 	}
 	return s
 }
@@ -230,10 +240,12 @@ func typedJSONDeep(v any) string {
 // walkDefaults calls f for every subschema of doc (under properties) that declares a default.
 func walkSchemas(doc map[string]any, f func(s map[string]any)) {
 	f(doc)
-	if props, ok := doc["properties"].(map[string]any); ok {
-		for _, k := range sortedKeys(props) {
-			if sub, ok := props[k].(map[string]any); ok {
-				walkSchemas(sub, f)
+	for _, kw := range []string{"properties", "dependentSchemas"} {
+		if props, ok := doc[kw].(map[string]any); ok {
+			for _, k := range sortedKeys(props) {
+				if sub, ok := props[k].(map[string]any); ok {
+					walkSchemas(sub, f)
+				}
 			}
 		}
 	}
@@ -525,8 +537,12 @@ func driveC15(c *Ctx) {
 				if st.B%3 == 0 {
 					typed = 1 + st.A%3
 				}
-				err, r, wasTyped := applyTo(rs[st.R], &insts[cur], typed)
+				err, r, wasTyped, again := applyTo(rs[st.R], &insts[cur], typed, st.Kind == 1)
 				c.CheckOp("ApplyDefaults", r)
+				if again != "" {
+					c.Fail("C15/idempotence", "second-application", "schedule %d step %d: a second application of the same schema to the same typed holder changed it %s (schema %s)", si, ti, again, JSON(doc))
+					return
+				}
 				if wasTyped {
 					c.Probe("typed-map-holder")
 					if err != nil && !r.Panicked {
@@ -555,14 +571,12 @@ func driveC15(c *Ctx) {
 				}
 				// remember which containers this application created
 				lastInserted = insertedPaths(before, insts[cur], nil)
-				if st.Kind == 1 {
+				if st.Kind == 1 && !wasTyped {
+					// (for a typed holder the second application was made on the same holder, inside applyTo:
+					// what comes back through JSON may no longer fit that holder type)
 					first := typedJSONDeep(insts[cur])
-					snapshot := clone(insts[cur])
-					err2, r, wasTyped2 := applyTo(rs[st.R], &insts[cur], typed)
+					_, r, _, _ := applyTo(rs[st.R], &insts[cur], 0, false)
 					c.CheckOp("ApplyDefaults", r)
-					if wasTyped2 && err2 != nil && !r.Panicked {
-						insts[cur] = snapshot
-					}
 					if typedJSONDeep(insts[cur]) != first {
 						c.Fail("C15/idempotence", "second-application", "schedule %d step %d: a second application of the same schema changed the instance from %s to %s (schema %s)", si, ti, first, typedJSONDeep(insts[cur]), JSON(doc))
 						return
@@ -645,7 +659,9 @@ func driveC15(c *Ctx) {
 // map[string][]any holding a deep copy - the element type is then a Go type of its own, not an
 // interface - or (3) through a pointer to a map[string]json.RawMessage, and the result is
 // brought back to canonical form through its JSON text.
-func applyTo(res *jsonschema.Resolved, inst *any, typed int) (err error, r OpResult, wasTyped bool) {
+// With twice, a typed holder gets a second application right away (same holder value); again
+// describes the change it made, if any.
+func applyTo(res *jsonschema.Resolved, inst *any, typed int, twice bool) (err error, r OpResult, wasTyped bool, again string) {
 	m, isObj := (*inst).(map[string]any)
 	if typed != 0 && isObj && len(m) > 0 {
 		text := []byte(JSON(m))
@@ -691,6 +707,15 @@ func applyTo(res *jsonschema.Resolved, inst *any, typed int) (err error, r OpRes
 				if json.Unmarshal(b, &back) == nil {
 					*inst = back
 				}
+				if twice {
+					var err2 error
+					r2 := Op(func() { err2 = res.ApplyDefaults(holder) })
+					if r2.Panicked {
+						r = r2
+					} else if b2, _ := json.Marshal(holder); err2 == nil && string(b2) != string(b) {
+						again = fmt.Sprintf("from %s to %s", b, b2)
+					}
+				}
 			}
 			// The holder is the client's own memory: having copied what it needs, it wipes it (raw
 			// bytes up to their capacity, nested maps, slice elements). Nothing the library keeps
@@ -712,13 +737,13 @@ func applyTo(res *jsonschema.Resolved, inst *any, typed int) (err error, r OpRes
 					wipe(a)
 				}
 			}
-			return err, r, true
+			return err, r, true, again
 		}
 	}
 	holder := *inst
 	r = Op(func() { err = res.ApplyDefaults(&holder) })
 	*inst = holder
-	return err, r, false
+	return err, r, false, ""
 }
 
 // wipe destroys a JSON-shaped value in place.
